@@ -95,6 +95,35 @@ def callee_q(call):
     return c.get("q", "?") if isinstance(c, dict) else "?"
 
 
+_OPS = ["<<=", ">>=", "->*", "<=>", "<<", ">>", "<=", ">=", "==", "!=", "&&", "||", "++", "--", "+=", "-=", "*=", "/=", "%=", "&=",
+        "|=", "^=", "->", "()", "[]", "<", ">", "+", "-", "*", "/", "%", "&", "|", "^", "~", "!", "=", ","]
+
+
+def base_name(q):
+    """unqualified name of a (possibly templated) function: `std::operator<<<T>` -> `operator<<`, `a::b<c>::f<d>` -> `f`"""
+    i = q.rfind("operator")
+    if i >= 0 and (i == 0 or q[i - 1] == ":"):
+        rest = q[i + 8:]
+        for op in _OPS:
+            if rest.startswith(op):
+                return "operator" + op
+        return "operator" + rest.split("<")[0]
+    # strip template arguments
+    out, depth = "", 0
+    for ch in q:
+        if ch == "<":
+            depth += 1
+        elif ch == ">":
+            depth -= 1
+        elif depth == 0:
+            out += ch
+    return out.split("::")[-1]
+
+
+def callee_name(call):
+    return base_name(callee_q(call))
+
+
 def callee_id(call):
     c = call[2]
     return c.get("id", c.get("q", "?")) if isinstance(c, dict) else "?"
@@ -220,9 +249,13 @@ def access_path(n):
             # &x : same object
             n = n[3]
             continue
+        if k == "Un" and n[2] in ("++", "--", "post++", "post--"):
+            # p++ designates (an element of) p
+            n = n[3]
+            continue
         if k == "Call":
             c = n[2]
-            name = c.get("q", "").split("::")[-1] if isinstance(c, dict) else ""
+            name = base_name(c.get("q", "")) if isinstance(c, dict) else ""
             if isinstance(c, dict) and not c.get("proj", False) and name in CONTAINER_ELEMENT_METHODS:
                 obj = n[3] if is_node(n[3]) else (n[4][0] if n[4] else None)
                 if obj is not None:
@@ -273,7 +306,7 @@ def writes(n):
             c = x[2]
             if not isinstance(c, dict):
                 continue
-            name = c.get("q", "").split("::")[-1]
+            name = base_name(c.get("q", ""))
             if c.get("k") in ("method", "virtual") and is_node(x[3]) and not c.get("const") and not c.get("static"):
                 if c.get("proj") or _std_mutating(c, name):
                     yield x[3], "call:" + name, x[1], x
